@@ -138,7 +138,7 @@ theorem unassign_step (s : State) (m : Move) (h : Inv s) (ha : assumed s m = tru
   | dropEvent i => apply UnassignsWithin.of_plog_eq; simp only [step]; split <;> rfl
   | filter ns name nodes ch fault => exact UnassignsWithin.of_plog_eq _ (filter_plog _ ns name nodes ch)
   | bind ns name uid node ch f pf =>
-    have := (bind_spec (withFaults s f pf) ns name uid node ch (h0 f pf) (assumed_bind ha)).2
+    have := (bind_spec (withFaults s f pf) ns name uid node ch (h0 f pf) (assumed_bind ha)).2.2
     exact this.mono (fun _ hf => hf.elim)
   | deliver i f pf => exact (deliver_spec _ i (h0 f pf)).2.2
   | resync order f pf => exact (resync_spec _ order (h0 f pf)).2.2
